@@ -168,13 +168,14 @@ _CANCEL_LIMIT = 4000
 class Sym:
     """n/d with n, d polynomials; d != 0 and free of I_."""
 
-    __slots__ = ("n", "d", "special")
+    __slots__ = ("n", "d", "special", "fac")
     __array_priority__ = 1000
 
     def __init__(self, n, d=None, special=None):
         self.n = n
         self.d = d if d is not None else n.ring.one
         self.special = special  # None | 'inf' | 'nan'
+        self.fac = None  # optional tuple of Sym factors (self == product), kept by __mul__ for zero-product reasoning
 
     # -- construction ------------------------------------------------------------------------
     @staticmethod
@@ -351,8 +352,19 @@ class Sym:
             return Sym(self.n.ring.zero, self.n.ring.one)
         n = _red(self.n * o.n)
         if self.d.is_ground and o.d.is_ground and self.d.LC == 1 and o.d.LC == 1:
-            return Sym(n, self.d)
-        return Sym._mk(n, self.d * o.d)
+            r = Sym(n, self.d)
+        else:
+            r = Sym._mk(n, self.d * o.d)
+        if type(self) is Sym and type(o) is Sym:
+            fa = self.fac if self.fac is not None else ((self,) if not self.n.is_ground else ())
+            fb = o.fac if o.fac is not None else ((o,) if not o.n.is_ground else ())
+            if fa and fb and len(fa) + len(fb) <= 8:
+                r.fac = fa + fb
+            elif (fa and not fb) and self.fac is not None:
+                r.fac = fa
+            elif (fb and not fa) and o.fac is not None:
+                r.fac = fb
+        return r
 
     __rmul__ = __mul__
 
@@ -697,8 +709,10 @@ def _div(a, b):
             return Sym(R.zero, R.one, "inf")
     if not a.n:
         return a
-    if not b.is_const() and not _has_i(b.n):
-        R.note_den_factor(b.n)
+    if not b.is_const():
+        for f in (b.fac or (b,)):
+            if not _has_i(f.n):
+                R.note_den_factor(f.n)
     inv = b._inv()
     return a * inv
 
@@ -911,6 +925,9 @@ def mk_eq0(s):
     s = Sym.const(s) if not isinstance(s, Sym) else s
     if s.special:
         return FALSE
+    if s.fac is not None and len(s.fac) > 1 and type(s) is Sym:
+        # zero-product rule on a product whose factors are known
+        return bor(*[mk_eq0(f) for f in s.fac])
     s = apply_relations(s)
     if not s.n:
         return TRUE
@@ -921,8 +938,48 @@ def mk_eq0(s):
         re, im = _split_ri(n)
         return band(mk_eq0(Sym(re, s.d.ring.one)), mk_eq0(Sym(im, s.d.ring.one)))
     if not _has_i(n):
+        if _lane_rule_refutes(n):
+            return FALSE
         n = _prim(n)
     return SymBool("eq", (Sym(n, n.ring.one),))
+
+
+def _lane_rule_refutes(n):
+    """n = c*x*w + b with w the power-of-two scale of a normalised lane containing the entry x, b a constant:
+    |x*w| < 1 (frexp mantissa), so n == 0 is impossible when |b| >= |c|"""
+    R = cur()
+    for k, meta in R.meta.items():
+        lane = meta.get("lane")
+        if not lane:
+            continue
+        A, B = {}, {}
+        ok = True
+        for m, c in n.items():
+            e = m[k]
+            if e == 0:
+                B[m] = c
+            elif e == 1:
+                A[m[:k] + (0,) + m[k + 1 :]] = c
+            else:
+                ok = False
+                break
+        if not ok or not A or not B:
+            continue
+        Bp = R.R.from_dict(B)
+        if not Bp.is_ground:
+            continue
+        Ap = R.R.from_dict(A)
+        b = abs(int(Bp.LC))
+        cA = Ap.content()
+        Aprim = Ap.quo_ground(cA) if cA not in (0, 1) else Ap
+        for x in lane:
+            cx = x.n.content()
+            xprim = x.n.quo_ground(cx) if cx not in (0, 1) else x.n
+            if Aprim == xprim or Aprim == -xprim:
+                # A = (cA/cx) * x  (up to sign)
+                if b * abs(int(cx)) >= abs(int(cA)):
+                    return True
+    return False
 
 
 def mk_cmp(op, s):
